@@ -1458,7 +1458,11 @@ namespace bloch::compiler {
             return nullptr;
         }
 
+        int arrayLevels = 0;
         while (match(TokenType::LBracket)) {
+            // thousands of '[]' pairs make every later step on the type cubic in their number
+            if (++arrayLevels > 8)
+                reportError("array type has too many dimensions");
             int arrSize = -1;
             std::unique_ptr<Expression> sizeExpr = nullptr;
             if (!check(TokenType::RBracket)) {
